@@ -1056,6 +1056,13 @@ class MutableFileVersion:
             log.msg("doing re-encode instead of in-place update")
             return self._do_modify_update(data, offset)
 
+        # An append that starts exactly at a segment boundary at (or, for an
+        # empty file, as) the end of the file has no old boundary segment to
+        # fetch and merge: there is nothing to update in place.
+        if offset // segment_size >= num_old_segments:
+            log.msg("no old boundary segment, doing re-encode")
+            return self._do_modify_update(data, offset)
+
         # Otherwise, we can replace just the parts that are changing.
         log.msg("updating in place")
         d = self._do_update_update(data, offset)
